@@ -16,6 +16,7 @@ import (
 	"github.com/filecoin-project/go-f3/certs"
 	"github.com/filecoin-project/go-f3/internal/clock"
 	logging "github.com/ipfs/go-log/v2"
+	"github.com/libp2p/go-libp2p/core/network"
 )
 
 func init() { runners["C20"] = runC20 }
@@ -229,7 +230,185 @@ func runC20(o *out, r *rng, thorough bool, replay string) {
 		}
 		o.count("subscriber-run-loop", fmt.Sprint(mn, df, mx), true)
 	}
+	// ---- the real loop against a scripted peer: the wait is the predicted interval, extended ONLY by the time THIS round's
+	// own requests took (and by at most half of the interval)
+	scen := 3
+	if thorough {
+		scen = 12
+	}
+	for i := 0; i < scen; i++ {
+		runWaitScenario(o, r, i)
+	}
 	o.finish("From F3 Require Import GoInt PredictorGen PredictorRun.")
+}
+
+// runWaitScenario: Subscriber.run on a mock clock with one scripted peer.  Round 1: the peer answers after `slow` of
+// mock time while the certificate arrives in the subscriber's store locally (progress without a new certificate from
+// the peer: the wait is extended by the request time, at most half).  Later rounds: the peer answers at once with the
+// next certificate (no request time at all): the wait must be exactly the predicted interval.
+func runWaitScenario(o *out, r *rng, idx int) {
+	runLogMu.Lock()
+	defer runLogMu.Unlock()
+	ctx, cancel := context.WithCancel(context.Background())
+	defer cancel()
+	ctx, mock := clock.WithMockClock(ctx)
+	g := newCertGen(r, 4, 0)
+	table := g.table
+	var cs []*certs.FinalityCertificate
+	for k := 0; k < 5; k++ {
+		cs = append(cs, g.makeCert())
+	}
+	net := newCxNet(ctx, 0, table, nil)
+	defer net.close()
+	cstore, _ := newMemStore(ctx, 0, table)
+	mn := time.Second
+	df := time.Duration(8+r.intn(8)) * time.Second
+	mx := 200 * time.Second
+	slow := time.Duration(2+r.intn(5)) * time.Second
+	type reqEv struct{ first uint64 }
+	arrived := make(chan reqEv, 16)
+	type resp struct {
+		pending uint64
+		certs   []*certs.FinalityCertificate
+	}
+	answers := make(chan resp, 16)
+	// the scripted peer replaces the real server's handler on the server host
+	net.srvHost.SetStreamHandler(certexchange.FetchProtocolName(verifNet), func(st network.Stream) {
+		var req certexchange.Request
+		br := bufio.NewReader(st)
+		if err := req.UnmarshalCBOR(br); err != nil {
+			_ = st.Reset()
+			return
+		}
+		arrived <- reqEv{req.FirstInstance}
+		a := <-answers
+		bw := bufio.NewWriter(st)
+		hdr := certexchange.ResponseHeader{PendingInstance: a.pending}
+		_ = hdr.MarshalCBOR(bw)
+		for _, c := range a.certs {
+			_ = c.MarshalCBOR(bw)
+		}
+		_ = bw.Flush()
+		_ = st.Close()
+	})
+	sub := &polling.Subscriber{
+		Client:              certexchange.Client{Host: net.client, NetworkName: verifNet, RequestTimeout: 500 * time.Second},
+		Store:               cstore,
+		SignatureVerifier:   g.backend,
+		MinimumPollInterval: mn, MaximumPollInterval: mx, InitialPollInterval: df,
+	}
+	must(sub.VerifInit(ctx))
+	sub.VerifPeerSeen(net.srvHost.ID())
+	pr := logging.NewPipeReader(logging.PipeFormat(logging.JSONOutput), logging.PipeLevel(logging.LevelDebug))
+	defer pr.Close()
+	_ = logging.SetLogLevel("f3/certexchange", "debug")
+	defer func() { _ = logging.SetLogLevel("f3/certexchange", "error") }()
+	type pw struct{ predicted, waiting time.Duration }
+	lines := make(chan pw, 64)
+	go func() {
+		sc := bufio.NewScanner(pr)
+		sc.Buffer(make([]byte, 1<<20), 1<<20)
+		for sc.Scan() {
+			var rec struct {
+				Msg string `json:"msg"`
+			}
+			if json.Unmarshal(sc.Bytes(), &rec) != nil {
+				continue
+			}
+			const pfx = "predicted interval is "
+			if !strings.HasPrefix(rec.Msg, pfx) {
+				continue
+			}
+			rest := rec.Msg[len(pfx):]
+			k := strings.Index(rest, " (waiting ")
+			if k < 0 {
+				continue
+			}
+			w := rest[k+len(" (waiting "):]
+			if e := strings.IndexAny(w, ",)"); e > 0 {
+				w = w[:e]
+			}
+			d1, err1 := time.ParseDuration(rest[:k])
+			d2, err2 := time.ParseDuration(strings.TrimSpace(w))
+			if err1 == nil && err2 == nil {
+				lines <- pw{d1, d2}
+			}
+		}
+	}()
+	done := make(chan struct{})
+	go func() { _ = sub.VerifRun(ctx); close(done) }()
+	defer func() { cancel(); <-done }()
+	waitReq := func() bool {
+		deadline := time.Now().Add(6 * time.Second)
+		for time.Now().Before(deadline) {
+			select {
+			case <-arrived:
+				return true
+			case <-time.After(15 * time.Millisecond):
+				mock.Add(0) // let timers that are already due fire
+			}
+		}
+		return false
+	}
+	waitLine := func() (pw, bool) {
+		select {
+		case l := <-lines:
+			return l, true
+		case <-time.After(6 * time.Second):
+			return pw{}, false
+		}
+	}
+	in := map[string]any{"scenario": idx, "initial": df.String(), "slow_request": slow.String()}
+	// round 1
+	time.Sleep(30 * time.Millisecond)
+	mock.Add(df)
+	if !waitReq() {
+		o.Dist["wait-scenario-inconclusive"]++
+		return
+	}
+	mock.Add(slow)
+	must(cstore.Put(ctx, cs[0])) // the certificate arrives locally while the request is in flight
+	answers <- resp{pending: 1, certs: []*certs.FinalityCertificate{cs[0]}} // the peer delivers what the store already has: progress, but nothing new from the network
+	l1, ok := waitLine()
+	if !ok {
+		o.Dist["wait-scenario-inconclusive"]++
+		return
+	}
+	until := l1.predicted - slow
+	if until < 0 {
+		until = 0
+	}
+	want1 := until + min(slow, until/2)
+	if l1.waiting != want1 {
+		o.violate("the wait is the predicted interval, extended only by the time its own requests took and by at most half of the interval", "subscriber-wait", in,
+			fmt.Sprintf("round 1 (request took %s, progress made locally): predicted %s, waiting %s, expected %s", slow, l1.predicted, l1.waiting, want1))
+	}
+	o.coqCase(fmt.Sprintf("subscriber wait scenario %d round 1", idx), fmt.Sprintf("Z.eqb (subscriber_delay %s %s) %s", cZ(int64(l1.predicted-slow)), cZ(int64(slow)), cZ(int64(l1.waiting))))
+	// rounds 2..4: the peer answers at once with the next certificate
+	prev := l1.waiting
+	for k := 1; k <= 3; k++ {
+		time.Sleep(60 * time.Millisecond) // the loop logs just before it re-arms its timer
+		mock.Add(prev)                    // exactly when the timer is due
+		if !waitReq() {
+			o.Dist[fmt.Sprintf("wait-scenario-inconclusive-round%d", k+1)]++
+			return
+		}
+		answers <- resp{pending: uint64(k + 1), certs: []*certs.FinalityCertificate{cs[k]}}
+		lk, ok := waitLine()
+		if !ok {
+			o.Dist["wait-scenario-inconclusive"]++
+			return
+		}
+		// this round's requests took no (mock) time and the timer fired on time: nothing may be added to the predicted interval
+		if lk.waiting != lk.predicted {
+			o.violate("the wait is extended only by the time its own requests took", "subscriber-wait-stale-offset", in,
+				fmt.Sprintf("round %d: this round's requests took no time, predicted %s, yet waiting %s (round 1's request took %s)", k+1, lk.predicted, lk.waiting, slow))
+		}
+		o.coqCase(fmt.Sprintf("subscriber wait scenario %d round %d", idx, k+1), fmt.Sprintf("Z.eqb (subscriber_delay %s 0) %s", cZ(int64(lk.predicted)), cZ(int64(lk.waiting))))
+		prev = lk.waiting
+		o.count("subscriber-wait-round", fmt.Sprint(idx, k), true)
+	}
+	o.count("subscriber-wait-scenario", fmt.Sprint(idx, df, slow), true)
 }
 
 var runLogMu sync.Mutex
